@@ -110,6 +110,25 @@ KeptQuick == {n \in 1..Len(KeptForms) : (KeptForms[n].mk = "top" /\ KeptForms[n]
 \* ---------------- family V: values made by one eval and used by later ones ------------------------------
 \* carrier x use; cls: "native" = the carrier is a native method value (a built-in method read from a value and kept)
 ArrayCallbackMethods == <<"forEach", "map", "filter", "reduce", "reduceRight", "some", "every", "find", "findIndex", "sort">>
+\* a RegExp made by one eval and handed to the matcher by a later one - no script callback is involved, the built-in does
+\* its own work (and polls the clock) on behalf of the eval that is running.  consumer (every built-in that runs the
+\* matcher) x route by which the regex reaches it x how the regex was made.  cls: "regex_direct" = the regex is the receiver
+\* or a direct argument of a method call in the text of the later eval; "regex_indirect" = it reaches the matcher any other
+\* way (the built-in was detached from the regex / the string, the regex sits in the argument array of apply, was bound
+\* earlier, or the built-in runs as the callback of another built-in)
+RegexCarriers == <<"regex", "regex_new">>              \* a literal / made by the RegExp constructor
+RegexUses == << [use |-> "rx_test", cls |-> "regex_direct"], [use |-> "rx_exec", cls |-> "regex_direct"],
+                [use |-> "rx_match", cls |-> "regex_direct"], [use |-> "rx_search", cls |-> "regex_direct"],
+                [use |-> "rx_replace", cls |-> "regex_direct"], [use |-> "rx_replaceAll", cls |-> "regex_direct"],
+                [use |-> "rx_split", cls |-> "regex_direct"], [use |-> "rx_call_test", cls |-> "regex_direct"],
+                [use |-> "rx_apply_test", cls |-> "regex_direct"],
+                [use |-> "rx_detached_test", cls |-> "regex_indirect"], [use |-> "rx_detached_exec", cls |-> "regex_indirect"],
+                [use |-> "rx_detached_split", cls |-> "regex_indirect"], [use |-> "rx_apply_split", cls |-> "regex_indirect"],
+                [use |-> "rx_bind_split", cls |-> "regex_indirect"], [use |-> "rx_apply_replace", cls |-> "regex_indirect"],
+                [use |-> "rx_callback_test", cls |-> "regex_indirect"] >>
+RegexCarryForms == [n \in 1..(Len(RegexCarriers) * Len(RegexUses)) |->
+                      [cr |-> RegexCarriers[((n - 1) \div Len(RegexUses)) + 1], use |-> RegexUses[((n - 1) % Len(RegexUses)) + 1].use,
+                       cls |-> RegexUses[((n - 1) % Len(RegexUses)) + 1].cls]]
 CarryForms ==
   [n \in 1..Len(ArrayCallbackMethods) |-> [cr |-> "array", use |-> ArrayCallbackMethods[n], cls |-> "object"]] \o
   << [cr |-> "function", use |-> "call_direct", cls |-> "script"],
@@ -129,10 +148,12 @@ CarryForms ==
      [cr |-> "native_array_sort", use |-> "call_direct", cls |-> "native"],
      [cr |-> "native_string_replace", use |-> "call_regex", cls |-> "native"],
      [cr |-> "native_function_call", use |-> "call_null", cls |-> "native"],
-     [cr |-> "native_function_apply", use |-> "apply_null", cls |-> "native"] >>
+     [cr |-> "native_function_apply", use |-> "apply_null", cls |-> "native"] >> \o RegexCarryForms
 \* quick: every carrier and every use, but only four of the array's callback methods (the others differ in nothing the
 \* model distinguishes; GridLaw below keeps the sub-grid honest)
-CarryQuick == {n \in 1..Len(CarryForms) : CarryForms[n].cr # "array" \/ CarryForms[n].use \in {"forEach", "map", "reduce", "sort"}}
+\* ... and every consumer and route of a carried regex for the literal, one of each class for the constructed one
+CarryQuick == {n \in 1..Len(CarryForms) : /\ CarryForms[n].cr # "array" \/ CarryForms[n].use \in {"forEach", "map", "reduce", "sort"}
+                                          /\ CarryForms[n].cr # "regex_new" \/ CarryForms[n].use \in {"rx_split", "rx_detached_test"}}
 \* the quick sub-grids contain every class of every dimension of the full grids
 GridLaw ==
   /\ {KeptForms[n].kb : n \in KeptQuick} = {KeptForms[n].kb : n \in 1..Len(KeptForms)}
@@ -145,6 +166,8 @@ GridLaw ==
   /\ {CarryForms[n].use : n \in CarryQuick} \cup {ArrayCallbackMethods[n] : n \in 1..Len(ArrayCallbackMethods)}
        = {CarryForms[n].use : n \in 1..Len(CarryForms)}
   /\ {CarryForms[n].cls : n \in CarryQuick} = {CarryForms[n].cls : n \in 1..Len(CarryForms)}
+  /\ \A cr \in {RegexCarriers[n] : n \in 1..Len(RegexCarriers)}, cl \in {"regex_direct", "regex_indirect"} :
+        \E n \in CarryQuick : CarryForms[n].cr = cr /\ CarryForms[n].cls = cl
 ASSUME GridLaw
 
 \* the parameters of a history besides its events: the target / form it works on (0 = none) and whether the
@@ -244,16 +267,24 @@ ExtraIx == 8 + NT
 \*       shares the context's globals); (c) after cv_mem the dead interpreter keeps the call stack the memory-limit error
 \*       left, so every later use of the same value (until it is made again) ends in MemoryLimitError before the callback
 \*       runs: no effect at all.
+\* Dev_StaleRegexDeadline: the clock poll of a RegExp object watches the deadline of one particular evaluation - the one
+\*   that made it, or the last one that had it as the receiver or a direct argument of a method call (VM._call_method re-arms
+\*   it).  A regex kept in a global that reaches the matcher any other way in a later eval (cls = "regex_indirect") is
+\*   polled against a deadline that has passed (Gap): the built-in raises TimeLimitError at once - before the interpreter's
+\*   own first clock poll (w < POLL), with the declaration of g committed and nothing else.
+StaleRegex(ev, cls) == cls = "regex_indirect" /\ ev.k \in CarryUseKinds /\ ev.o = "timelimit" /\ ev.w < POLL
 Poisoned(ev, cls, pois) == cls = "native" /\ ev.k \in CarryUseKinds /\ ev.c \in pois /\ ev.o = "memlimit"
 Deviation(ev, pred, cls, pois) ==
   IF ev.k = "reenter" /\ ev.o = "value" /\ pred.r = 1 /\ ev.r = 0 THEN "Dev_ReentrantPointer"
+  ELSE IF StaleRegex(ev, cls) THEN "Dev_StaleRegexDeadline"
   ELSE IF Poisoned(ev, cls, pois) THEN "Dev_StaleNativeInterpreter"
   ELSE IF cls = "native" /\ ev.k \in {"cv_catch", "cv_catchfn"} /\ ev.o = "jserror" THEN "Dev_StaleNativeInterpreter"
   ELSE IF cls = "native" /\ ev.k = "cv_work" /\ ev.o = "timelimit" /\ pred.os = {"value"} THEN "Dev_StaleNativeInterpreter"
   ELSE ""
 \* the prediction under the as-is rule of the deviation that applies (the specified one when none does)
 AsIs(ev, pred, cls, pois, cs) ==
-  IF Poisoned(ev, cls, pois) THEN [st |-> cs, os |-> {"memlimit"}, r |-> DontCare]
+  IF StaleRegex(ev, cls) THEN [st |-> RunEvent(cs, "redecl", ev.x).st, os |-> {"timelimit"}, r |-> DontCare]
+  ELSE IF Poisoned(ev, cls, pois) THEN [st |-> cs, os |-> {"memlimit"}, r |-> DontCare]
   ELSE IF Deviation(ev, pred, cls, pois) = "Dev_StaleNativeInterpreter" THEN [st |-> pred.st, os |-> {ev.o}, r |-> DontCare]
   ELSE pred
 
@@ -301,7 +332,9 @@ TraceNext ==
                  dv0 == Deviation(ev, spec, tr.cls, tpois)
                  predA == AsIs(ev, spec, tr.cls, tpois, ctx[ev.c])
                  clA == Clause(ev, ctx, predA, tr.nc, dv0)
-                 useDev == clS.clause # "" /\ dv0 # "" /\ clA.clause = ""
+                 \* (back to back nothing but the outcome is observed: a time-limit error before the first clock poll of
+                 \*  an eval that was to end in a time-limit error anyway is the as-is rule's, with ITS state)
+                 useDev == (clS.clause # "" \/ (ev.np = 1 /\ StaleRegex(ev, tr.cls))) /\ dv0 # "" /\ clA.clause = ""
                  dv == IF useDev THEN dv0 ELSE ""
                  pred == IF useDev THEN predA ELSE spec
                  cl == IF useDev THEN clA ELSE clS
